@@ -54,8 +54,6 @@ type AggSpec struct {
 	Steps []AStep  `json:"steps"`
 }
 
-type AggPre struct{}
-
 type aggRefs struct {
 	deployed, deployed2, pair string
 }
@@ -192,6 +190,13 @@ func runAgg(e *env, s *AggSpec) []StepObs {
 			continue
 		}
 		content := buildAggContent(st, refs)
+		o.Res = map[string]string{}
+		if st.Contract != "" {
+			o.Res["contract"] = hx(refs.resolve(st.Contract))
+		}
+		if st.NewAddr != "" {
+			o.Res["new_contract"] = hx(refs.resolve(st.NewAddr))
+		}
 		decoded, v, vtxt := submitRoundTrip(e, content)
 		o.V = v
 		if v == 2 {
